@@ -15,6 +15,7 @@
          ((room , rr_name bytes) , [(nm.posix_name_flags , nm.posix_name) for dr NM records then ce NM records])
          room = max(ALLOWED_DR_SIZE - curr_dr_len - 5, 0) at the call of _add_name (a CE record must exist)
      bad_sl_cases    : list (((Z * list Z) * list (Z * list (Z * list Z))) * (list Z * list (list Z)))
+         NON-EMPTY targets only (pycdlib never calls _new_symlink with b''), a CE record must exist;
          (((room_first , target bytes) , [(sl.flags , [(c.flags , c.data) ...]) per SL record, dr then ce])
           , ( symlink_path() of the re-parsed records , [list(sl.record()) per SL record] ))
          the component lists / bytes are those obtained by RRSLRecord.parse of sl.record() (the ON-DISK form:
@@ -392,3 +393,48 @@ Definition sl_case_ok (c : sl_case) : bool :=
   && zlist_eqb (sl_reassemble rs) readback.
 Definition bad_sl_cases (cases : list sl_case) : list sl_case :=
   filter (fun c => negb (sl_case_ok c)) cases.
+
+(* ------------------------------------------------------------------ specification-side helpers
+   (used by the statements in Proofs/LongNamesProofs.v) *)
+
+(* flag lists: `yes` on every element but the last, `no` on the last *)
+Fixpoint all_but_last {A} (yes no : A) (fs : list A) : Prop :=
+  match fs with
+  | [] => True
+  | [f] => f = no
+  | f :: r => f = yes /\ all_but_last yes no r
+  end.
+
+(* within an SL record with record-level flag fl: only the last component may carry CONTINUE, and then
+   the record itself carries CONTINUE *)
+Fixpoint cont_last_only (fl : bool) (cs : list comp) : Prop :=
+  match cs with
+  | [] => True
+  | [c] => comp_continued c = true -> fl = true
+  | c :: r => comp_continued c = false /\ cont_last_only fl r
+  end.
+
+(* witnesses of the excluded classes (all reproduced against the real pycdlib) *)
+(* "a*129/.bbb/c*100", 136 bytes of room in the directory record: the name ".bbb" is cut after its dot *)
+Definition w_dot : list Z := repeat 97 129%nat ++ [47; 46; 98; 98; 98; 47] ++ repeat 99 100%nat.
+Definition w_dot_read : list Z := repeat 97 129%nat ++ [47; 46; 47; 98; 98; 98; 47] ++ repeat 99 100%nat.
+Definition w_dotdot : list Z := repeat 97 128%nat ++ [47; 46; 46; 98; 98; 98; 47] ++ repeat 99 100%nat.
+Definition w_dotdot_read : list Z :=
+  repeat 97 128%nat ++ [47; 46; 46; 47; 98; 98; 98; 47] ++ repeat 99 100%nat.
+(* "a/a/.../a" (40 names), 164 bytes of room, no CE record *)
+Definition w_many : list Z := join_slash (repeat [97] 40%nat).
+
+(* all words of length <= n over an alphabet, for the bounded sweep *)
+Fixpoint words (alphabet : list Z) (n : nat) : list (list Z) :=
+  match n with
+  | O => [[]]
+  | S k => [] :: flat_map (fun w => map (fun c => c :: w) alphabet) (words alphabet k)
+  end.
+(* on a non-empty target: pycdlib's reader = independent reader, and sl_ok <-> round trip *)
+Definition agree_on (r1 r2 : Z) (t : list Z) : bool :=
+  let rs := sl_records r1 r2 (sl_components t) in
+  match t with
+  | [] => true
+  | _ => match symlink_path_model rs with Some x => zlist_eqb x (sl_reassemble rs) | None => false end
+         && Bool.eqb (sl_ok r1 r2 t) (zlist_eqb (sl_reassemble rs) t)
+  end.
